@@ -554,7 +554,5 @@ func SyncLookalikeStream(seed int64) *Stream {
 	ps = append(ps, Packetize(u2, nil, &cc[1], false)...)
 	exp[0x0047] = []ExpData{u0.Exp[0], u1.Exp[0]}
 	exp[0x1047] = u2.Exp
-	// make the second packet the one with adaptation_field_length 0x47: order = u1 first packet second
-	ps[0], ps[1] = ps[0], ps[1]
 	return &Stream{Name: "sync-lookalikes", Pkts: ps, Bytes: EncodePkts(ps), Exp: exp}
 }
